@@ -713,6 +713,22 @@ static void c17_state(Position& e, const ref::Pos& p, const std::vector<ref::Mv>
     std::map<std::string, Move> seen;
     std::map<Move, const ref::Mv*> rm;
     for (auto& m : legal) rm[to_engine(m)] = &m;
+    // vacuity counters from the oracle's side: moves that need a file/rank, or both, to be told apart
+    for (auto& m : legal)
+    {
+        char k = ref::lower(p.b[m.from]);
+        if (k == 'p' || k == 'k') continue;
+        bool other = false, same_file = false, same_rank = false;
+        for (auto& o : legal)
+        {
+            if (o.from == m.from || o.to != m.to || p.b[o.from] != p.b[m.from]) continue;
+            other = true;
+            if (ref::fileof(o.from) == ref::fileof(m.from)) same_file = true;
+            if (ref::rankof(o.from) == ref::rankof(m.from)) same_rank = true;
+        }
+        if (other) R.count("disambiguated");
+        if (same_file && same_rank) R.count("doubly_disambiguated");
+    }
     for (Move gm : raw)
     {
         R.count("edges");
@@ -734,15 +750,6 @@ static void c17_state(Position& e, const ref::Pos& p, const std::vector<ref::Mv>
         if (seen.count(s) && seen[s] != gm)
             R.violation("C17:ambiguous", wit(p).s("san", s).s("move_a", e.uci(seen[s])).s("move_b", e.uci(gm)));
         seen[s] = gm;
-        if (s.size() > 3 && s[0] != 'O')
-        {
-            // count disambiguated strings for the vacuity guard
-            size_t letters = 0;
-            for (char c : s)
-                if ((c >= 'a' && c <= 'h') || (c >= '1' && c <= '8')) ++letters;
-            if (letters >= 3 && s.find('=') == std::string::npos && s[0] >= 'B' && s[0] <= 'R') R.count("disambiguated");
-            if (letters >= 4 && s.find('=') == std::string::npos && s[0] >= 'B' && s[0] <= 'R') R.count("doubly_disambiguated");
-        }
     }
 }
 
